@@ -12,6 +12,11 @@ order and multiplicity in which the children's code appears in the bytecode of t
   C01.R2  left to right: on every path the positions are generated in source order; list loops run forward
   C01.R4  (source order) the declaration order of the payload fields, which R2 uses as source order, agrees with the
           child positions the lowering reads them from
+  C01.R5  (argument placement, c01_place.py) a constructor handler consults the field index the checker recorded for
+          each argument, so that named arguments written out of declaration order initialise their own fields
+  (the optional rule about the optimizing compiler's graph builder, pkgs/boots/bytecode_graph_builder.dora, is not
+   built: its handlers append several instructions per bytecode instruction — checks, address computations, loads,
+   stores — and which of them are effectful is not derivable from the Dora syntax tree without a frozen table)
 
 See c01_sym.py for the path enumeration and its bounds."""
 import sys
@@ -22,6 +27,7 @@ import hirq
 from rules import c01_sym as S
 from rules.c01_sym import Single, ListItem, accstr, pathstr, Unint
 from rules.c01_roles import Roles
+from rules import c01_place
 
 # ---------------------------------------------------------------------------------------------------------------------
 # Expected order where it differs from declaration order (frozen; one reason each):
@@ -84,8 +90,14 @@ def run(chk, F):
         A.run()
     except Unint as e:
         raise factsmod.AnalysisError("C01", "cannot interpret: %s" % e)
+    for tag, why in sorted(A.unint.items()):
+        # a handler the path enumeration cannot interpret is an analysis failure for that handler (fail closed)
+        r0.violation("ANALYSIS:%s:%s:uninterpretable" % (A.handlers.get(tag, R.expr_dispatch), tag),
+                     "the handler of %s cannot be interpreted (%s): nothing is decided for its payload positions"
+                     % (tag, why))
     rules_r1_r2(chk, A, R)
-    rule_r3(chk, F, c, R, A)
+    rule_r4(chk, F, c, R, A)
+    c01_place.rule_r5(chk, c, R, A)
     chk.assumptions += [
         "partial claim: decides, on the generator's own code, how often and in which order the code of the children of "
         "each expression/statement node is emitted; what the emitted instructions compute, traps, value/reference "
@@ -121,6 +133,9 @@ class Analysis:
                 return k[1][1][1] in calls
             return False
         self.interp.protected = protected
+        # checker records consulted by constructor handlers (C01.R5)
+        self.record_pairs = c01_place.record_pairs(c, R)
+        self.interp.record_inspections = set(g for (_i, g) in self.record_pairs.values())
         self.paths = {}         # variant tag -> [State]
         self.handlers = {}      # variant tag -> handler fn
 
@@ -134,52 +149,96 @@ class Analysis:
 
     def _run(self):
         R = self.R
+        sys.setrecursionlimit(max(sys.getrecursionlimit(), 6000))
+        self.unint = {}         # variant tag -> why the handler could not be interpreted
         for (fn, argi, enum) in ((R.expr_dispatch, R.expr_arg, R.E), (R.stmt_dispatch, R.stmt_arg, R.S)):
             b = self.c.hir[fn]
             name = b["params"][argi][0][1]
-            finals = self.interp.run_root(fn, {name: ("node", ())})
-            for st in finals:
-                v = st.cons.get(("var", ()))
-                if v is None or v[0] != "is":
-                    raise Unint("%s: a path does not determine the variant of the node" % fn)
-                self.paths.setdefault(v[1], []).append(st)
-                if st.handler:
-                    self.handlers.setdefault(v[1], st.handler)
+            arms = arm_handlers(b["body"], enum)
+            for v in R.adts[enum]["variants"]:
+                tag = "%s::%s" % (self.model.short(enum), v["name"])
+                if tag in arms:
+                    self.handlers[tag] = arms[tag]
+                try:
+                    finals = self.interp.run_root(fn, {name: ("node", ())}, assume={("var", ()): ("is", tag)})
+                except Unint as e:
+                    self.unint[tag] = str(e)
+                    continue
+                except RecursionError:
+                    self.unint[tag] = "nesting too deep for the interpreter"
+                    continue
+                for st in finals:
+                    self.paths.setdefault(tag, []).append(st)
+                    if st.handler and tag not in self.handlers:
+                        self.handlers[tag] = st.handler
         self.place_variants = derive_place_variants(self.c, self.R)
 
 
-def derive_place_variants(c, R):
-    """The type checker dispatches an assignment on the variant of its left-hand side and reports an error for every
-    variant it does not name: generator paths that assume another variant there cannot occur in a checked program.
-    → (set of variant tags, function) or (None, None) when the shape is not found."""
-    E = R.E
-    best = None
-    for p, b in c.hir.items():
-        if not p.startswith("dora_frontend::typeck::"):
+def arm_handlers(body, enum):
+    """dispatcher arms: variant tag -> the function the arm forwards to"""
+    out = {}
+    short = enum.rsplit("::", 1)[-1]
+    for n in hirq.walk(body):
+        if n[0] != "match":
             continue
+        for (pat, _g, arm) in n[2]:
+            ds = [d for d in hirq.pat_paths(pat) if d.rsplit("::", 1)[0] == enum]
+            cs = [c for c in hirq.calls(arm) if c.callee]
+            if len(ds) == 1 and cs:
+                out.setdefault("%s::%s" % (short, hirq.last(ds[0])), cs[0].callee)
+    return out
+
+
+def derive_place_variants(c, R):
+    """A checker function outside the generator that receives the payload struct of a variant V, looks up the node
+    in payload field F, dispatches on its variant and reports a diagnostic for every variant it does not name,
+    makes generator paths that assume another variant at V.F infeasible for checked programs.
+    → ({(variant tag, field): set of accepted child tags}, {key: function})"""
+    E = R.E
+    short = E.rsplit("::", 1)[-1]
+    payload = {}                                   # payload struct path -> variant tag
+    for v in R.adts[E]["variants"]:
+        if len(v["fields"]) == 1 and v["fields"][0]["ty"] in R.adts:
+            payload[v["fields"][0]["ty"]] = "%s::%s" % (short, v["name"])
+    lookup_names = set(hirq.last(p) for p in R.lookups)
+    out, where = {}, {}
+    fns = dict((f["path"], f) for f in c.items["fns"])
+    for p, b in c.hir.items():
+        if p.startswith(R.module + "::") or p not in fns:
+            continue
+        mine = [(i, S.strip_ref(t)) for i, t in enumerate(fns[p]["inputs"]) if S.strip_ref(t) in payload]
+        if not mine:
+            continue
+        pnames = {}
+        for (i, t) in mine:
+            if i < len(b["params"]) and hirq.is_node(b["params"][i][0]) and b["params"][i][0][0] == "pbind":
+                pnames[b["params"][i][0][1]] = payload[t]
+        # locals bound to lookup(param.F)
+        looked = {}
         for n in hirq.walk(b["body"]):
-            if n[0] != "match" or not hirq.is_node(n[1]):
+            if n[0] == "let" and hirq.is_node(n[1]) and n[1][0] == "pbind" and n[2] is not None:
+                for cs in hirq.calls(n[2]):
+                    if cs.name in lookup_names and cs.args:
+                        a0 = hirq.strip(cs.args[-1])
+                        if hirq.is_node(a0) and a0[0] == "field" and hirq.local_name(a0[1]) in pnames:
+                            looked[n[1][1]] = (pnames[hirq.local_name(a0[1])], a0[2])
+        for n in hirq.walk(b["body"]):
+            if n[0] != "match" or hirq.local_name(n[1]) not in looked:
                 continue
-            scr = hirq.strip(n[1])
-            # scrutinee: a local bound to lookup(<payload>.lhs) where payload is the assignment struct
             names = set()
             wild_reports = False
-            for (pat, guard, body) in n[2]:
+            for (pat, _g, body) in n[2]:
                 ds = hirq.pat_paths(pat)
                 if ds and all(d.rsplit("::", 1)[0] == E for d in ds):
-                    for d in ds:
-                        names.add(hirq.last(d))
+                    names |= set(hirq.last(d) for d in ds)
                 elif hirq.pat_is_wild(pat):
+                    # `report` is the diagnostics sink of the checker (frozen name: it is what makes the arm an error)
                     wild_reports = any(cs.name == "report" for cs in hirq.calls(body))
-            if len(names) >= 2 and wild_reports:
-                f = next((f for f in c.items["fns"] if f["path"] == p), None)
-                takes_assign = f and any(t.endswith("::AssignExpr") for t in f["inputs"])
-                if takes_assign and (best is None or len(names) > len(best[0])):
-                    best = (names, p)
-    if best is None:
-        return (None, None)
-    short = E.rsplit("::", 1)[-1]
-    return (set("%s::%s" % (short, n) for n in best[0]), best[1])
+            if names and wild_reports:
+                key = looked[hirq.local_name(n[1])]
+                out[key] = set("%s::%s" % (short, x) for x in names)
+                where[key] = p
+    return (out, where)
 
 
 # ---------------------------------------------------------------------------------------------------------------------
@@ -397,7 +456,8 @@ class Checker:
             return
         if not self.zero(P, tag, it, cons):
             self.issues.append(Issue("R1", full, "never", "%s is not generated on a path where nothing establishes "
-                                                         "that there is nothing to evaluate" % full, self.st))
+                                                         "that there is nothing to evaluate: the operand (and its side "
+                                                         "effects) is dropped on that path" % full, self.st))
 
     def check_list(self, P, tag, it, mine, full, cons):
         loops = [(i, ev) for (i, ev) in mine if ev[0] == "loop" and ev[1] == (P, it.acc)]
@@ -432,7 +492,6 @@ class Checker:
             it = ListItem(it.acc, [x for x in it.subs
                                    if not (isinstance(x, Single) and self.slotname(tag, x.acc) in inspected)])
         if dyn:
-            und = [s for s in S.flat_slots(it.subs) if (tag, self.slotname(tag, s.acc)) in DYN_UNDECIDED]
             # which sub-positions do the dyn events touch?
             touched = set()
             for (_i, ev) in dyn:
@@ -557,10 +616,9 @@ def rules_r1_r2(chk, A, R):
     for r in (r1, r2):
         r.anchor(R.expr_dispatch, True)
         r.anchor(R.stmt_dispatch, True)
-    place_tags, place_fn = A.place_variants
-    r1.anchor("type checker's dispatch on the variant of an assignment's left-hand side (infeasible generator paths)",
-              place_tags)
-    assign_tag = None
+    place, place_fn = A.place_variants
+    r1.anchor("checker dispatch that rejects variants of a child (infeasible generator paths), e.g. assignment targets",
+              place)
     variants_with_paths = 0
     slots_seen = 0
     paths_total = 0
@@ -578,7 +636,7 @@ def rules_r1_r2(chk, A, R):
             sts = A.paths.get(tag, [])
             handler = A.handlers.get(tag, R.expr_dispatch if enum == R.E else R.stmt_dispatch)
             if not sts:
-                if items:
+                if items and tag not in A.unint:
                     r1.observe("%s: every path of the dispatcher arm panics (variant never reaches the generator); "
                                "%d payload positions not checked" % (tag, len(list(S.flat_slots(items)))))
                 continue
@@ -587,26 +645,26 @@ def rules_r1_r2(chk, A, R):
             hows = {}
             checked_paths = 0
             for st in sts:
-                # generator paths the type checker excludes: assignment target of a variant it rejects
-                if place_tags:
-                    bad = False
-                    for k, cv in st.cons.items():
-                        if k[0] == "var" and len(k[1]) == 1 and k[1][0][0] == "Expr::Assign" and k[1][0][-1] == "lhs":
-                            if (cv[0] == "is" and cv[1] not in place_tags) or \
-                                    (cv[0] == "not" and place_tags <= set(cv[1])):
-                                bad = True
-                    if bad:
-                        dropped_place += 1
-                        continue
+                # generator paths the checker excludes: a child of a variant it rejects at that position
+                bad = False
+                for k, cv in st.cons.items():
+                    if k[0] == "var" and len(k[1]) == 1 and k[1][0][0] == tag:
+                        allowed = place.get((tag, k[1][0][-1]))
+                        if allowed and ((cv[0] == "is" and cv[1] not in allowed) or
+                                        (cv[0] == "not" and allowed <= set(cv[1]))):
+                            bad = True
+                if bad:
+                    dropped_place += 1
+                    continue
                 ck = Checker(m, st, tag)
-                for ev in st.trace:
-                    if ev[0] in ("uloop",) and any(tr for tr, _c in ev[3]):
-                        # generation inside a loop over computed values: only positions addressed by computed index
-                        pass
-                evs = []
-                for i, ev in enumerate(expand_uloops(st.trace)):
-                    evs.append((i, ev))
-                ck.check_items((), tag, ck.ordered(tag, items), evs)
+                try:
+                    evs = list(enumerate(expand_uloops(st.trace)))
+                    ck.check_items((), tag, ck.ordered(tag, items), evs)
+                except Unint as e:
+                    r1.violation("ANALYSIS:%s:%s:trace-not-attributable" % (handler, tag),
+                                 "a path through the handler of %s produces a trace that cannot be attributed to "
+                                 "payload positions (%s) — path: %s" % (tag, e, describe_path(st)))
+                    continue
                 checked_paths += 1
                 for iss in ck.issues:
                     issues.setdefault((iss.rule, iss.slot, iss.kind), iss)
@@ -637,7 +695,10 @@ def rules_r1_r2(chk, A, R):
             for it in all_lists(items):
                 lists += 1
                 lname = Checker(m, sts[0], tag).slotname(tag, it.acc)
-                r2.instance("%s:%s forward" % (tag, lname), nontrivial=True)
+                r2.instance("%s:%s forward" % (tag, lname), nontrivial=True,
+                            sample={"variant": tag, "list": lname, "paths": checked_paths,
+                                    "generated": sorted(set(h for k, hs in hows.items()
+                                                            if k == "%s.%s" % (tag, lname) for h in hs))[:3]})
                 for a, b in zip(it.subs, it.subs[1:]):
                     pairs += 1
                     r2.instance("%s:%s<%s" % (tag, Checker(m, sts[0], tag).slotname(tag, a.acc),
@@ -671,9 +732,9 @@ def rules_r1_r2(chk, A, R):
         if k not in seen_as:
             seen_as.add(k)
             r1.observe("arity assumption: %s — %s" % k)
-    if place_tags:
-        r1.observe("paths dropped as infeasible (assignment target variant the type checker rejects in %s; accepted: "
-                   "%s): %d" % (place_fn, ", ".join(sorted(place_tags)), dropped_place))
+    for key, allowed in sorted(place.items()):
+        r1.observe("paths dropped as infeasible: %s.%s of a variant the checker rejects in %s (accepted: %s); %d paths "
+                   "dropped in total" % (key[0], key[1], place_fn[key], ", ".join(sorted(allowed)), dropped_place))
     for (kind, site), n in sorted(A.interp.pruned.items()):
         r1.observe("bound: %s %s — %d paths beyond the unrolling bound dropped" % (
             "recursion of" if kind == "rec" else "loop in", site, n))
@@ -712,7 +773,7 @@ def expand_uloops(trace):
 
 
 # ---------------------------------------------------------------------------------------------------------------------
-def rule_r3(chk, F, c, R, A):
+def rule_r4(chk, F, c, R, A):
     """declaration order of the payload fields = order of the child positions the lowering reads them from"""
     r3 = chk.rule("C01.R4", "the declaration order of id-carrying payload fields (used as source order by R2) agrees "
                             "with the positions of the syntax-tree children they are lowered from")
@@ -748,7 +809,6 @@ def rule_r3(chk, F, c, R, A):
     lower_fn = lower[0]
     body = c.hir[lower_fn]["body"]
     checked = 0
-    m = A.model
     for x in hirq.walk(body):
         if not (x[0] == "call" and hirq.is_node(x[2]) and x[2][0] == "def" and x[2][1] == "ctor"
                 and x[2][2].rsplit("::", 1)[0] == R.E and x[3]):
@@ -768,7 +828,6 @@ def rule_r3(chk, F, c, R, A):
         # local variables initialised before the struct literal are not followed (fields then have no position)
         same_class = {}
         for fname, (acc, k) in fpos.items():
-            cls = p.hir[acc]
             ret = next((f["output"] for f in p.items["fns"] if f["path"] == acc), "")
             same_class.setdefault(ret.replace("core::option::Option<", "").rstrip(">"), []).append((k, fname))
         for cls, lst in same_class.items():
